@@ -1069,6 +1069,9 @@ func (c *Catalog) NodeServiceList(args *structs.NodeSpecificRequest, reply *stru
 
 			if mergedServices != nil {
 				reply.NodeServices = *mergedServices
+			} else {
+				// the node is gone: do not leave what an earlier evaluation of this blocking query found
+				reply.NodeServices = structs.NodeServiceList{}
 			}
 
 			// Note: we filter the results with ACLs *before* applying the user-supplied
